@@ -18,7 +18,7 @@ EXPLANATION = (
     "the cursor advanced by the float-derived skip with a saturating/guarded addition, the cursor CONSUMED BY SUBTRACTION in the carry "
     "loop that increments the row, the pair pushed under row < n, add_edge_tuples at the end.  R-C16-3 complete_graph: the node list "
     "handed to the constructor derives from 0..num_nodes, combinations(2) is used exactly when undirected and permutations(2) when "
-    "directed.  (R-C16-2 also requires that no plain arithmetic is applied to the saturated cursor.)  NOT decided: the edge distribution, 'every pair can occur', the 34x34 karate-club data literal."
+    "directed.  (R-C16-2 also requires that no plain arithmetic is applied to the saturated cursor.)  R-C16-4: without a seed an entropy source is used.  NOT decided: the edge distribution, 'every pair can occur', the 34x34 karate-club data literal."
 )
 TRUSTED = ["rustc MIR construction", "itertools combinations/permutations semantics", "the published skipping algorithm (Batagelj & Brandes 2005) as reference for the sibling features"]
 
@@ -90,6 +90,26 @@ def run(ctx):
     ctx.floor("R-C16-1", "ok_exits", len(prods), 1)
     inv = [(bb, s) for (bb, s, v) in errorkind_sites(gnp) if v == "InvalidArgument"]
     ctx.require(len(inv) == 1, "R-C16-1", "invalid-argument", "an out-of-range probability yields ErrorKind::InvalidArgument", "InvalidArgument is built %d times" % len(inv), loc_str(gnp.span))
+
+    # ------------------------------------------------------------------ R-C16-4
+    # "behaves as a draw from G(n,p) ... every possible pair can occur": without a seed the generator must take its
+    # randomness from an entropy source.  If `None` is mapped to a fixed seed, every unseeded call returns the same graph
+    # and the pairs absent from that one graph can never occur.
+    ctx.rule("R-C16-4", "without a seed the generator is made from an entropy source: a call to thread_rng / from_entropy / OsRng is reachable from fast_gnp_random_graph and runs on the seed == None arm")
+    ENTROPY4 = ("rand::thread_rng", "rand::random", "rand::rngs::OsRng", "rand::SeedableRng::from_entropy", "rand::SeedableRng::from_os_rng", "rand::rngs::ThreadRng", "getrandom::")
+    found4, on_none4 = [], False
+    for p4 in sorted(prog.reachable_bodies([gnp.path])):
+        b4 = prog.bodies[p4]
+        f4 = None
+        for t4 in b4.calls():
+            if t4.callee and any(t4.callee.short.startswith(e) for e in ENTROPY4):
+                f4 = f4 or flows.of(b4)
+                found4.append(t4)
+                for (te4, v4, a4) in controlling_atoms(f4, t4.bb):
+                    if isinstance(te4, tuple) and te4[0] == "discr" and "Option" in (te4[2] if len(te4) > 2 else "") and (v4 == (0,) or v4 == "otherwise"):
+                        on_none4 = True
+    ctx.require(bool(found4) and on_none4, "R-C16-4", "unseeded-entropy", "an entropy source (%s) is used on the seed == None arm" % ", ".join(sorted({t.callee.short.split("::")[-1] for t in found4})),
+                "no entropy source is reached from fast_gnp_random_graph on the seed == None arm (%d entropy calls found): an unseeded call is then a fixed seed in disguise -- every call returns the same graph, and a pair that is absent from that graph can never occur" % len(found4), loc_str(gnp.span))
 
     # ------------------------------------------------------------------ R-C16-2
     ctx.rule("R-C16-2", "the directed and undirected skipping kernels agree on the frozen feature vector (cursor consumed by subtraction in the carry loop, ...)")
